@@ -245,7 +245,7 @@ Qed.
 
 (* the defective submission (finding marshal-batch) loses the whole batch *)
 Lemma submit_fails_refuted :
-  exists calls s, b_state (run_batch_submit_fails (value:=Z) ESubmit calls s) <> r_state (acc_seq calls s).
+  exists calls s, b_state (run_batch_submit_fails (value:=aval) ESubmit calls s) <> r_state (acc_seq calls s).
 Proof.
   exists nobreak_witness, 0. vm_compute. intros H; discriminate H.
 Qed.
